@@ -1,7 +1,8 @@
 """C20 — determinism and isolation.  Reference-free trace equality:
  (1) replay: deep copy at a random point, both run k more steps, traces equal;
  (2) history independence: an aged CPU and a fresh CPU restored to the same architectural snapshot
-     (scratch fields deliberately left as they are) produce equal traces;
+     (scratch fields deliberately left as they are) produce equal traces; and, in volume, before EVERY step of a running
+     program its snapshot is written into a deep copy of a never-stepped instance and both take the step;
  (3) isolation: instances (same or different configuration files) whose creation / reset / steps are
      interleaved — every interleaving for 2 x (create, reset, step, step), random schedules for longer
      programs — each produce exactly the trace they produce alone.
@@ -39,6 +40,8 @@ def plan(tier, seed):
         specs.append(dict(kind='history', seed=seed, shard=i, n=150 if q else 6000))
     for i in range(6 if q else 24):
         specs.append(dict(kind='isolation', seed=seed, shard=i, n=12 if q else 150, rand=120 if q else 3000))
+    for i in range(6 if q else 24):
+        specs.append(dict(kind='aged', seed=seed, shard=i, n=250 if q else 12000, steps=25))
     return specs
 
 
@@ -272,6 +275,54 @@ def sc_schedule(cfgs, progs, thumbs, seeds, schedule):
     return traces
 
 
+def aged_steps(spec, res, bump, report, rng):
+    """(2b) history independence, step by step and in volume: an instance runs a program; before EVERY step its
+    architectural snapshot is written into a deep copy of a never-stepped instance of the same configuration, and both take
+    the step.  Whatever the stepped instance has accumulated outside its architectural state (decode caches, flags, memo
+    tables on the object) shows up as a difference.  In-process, so class-level state is common to both (that is what the
+    forked scenarios are for)."""
+    from vf import observe
+    templates = {}
+    for p in range(spec['n']):
+        cfg = rng.choice(CFGS)
+        thumb = rng.random() < 0.5
+        prog = gen_program(rng, thumb, seed=spec['seed'], sensitive=rng.choice([0.0, 0.0, 0.3]))
+        if rng.random() < 0.5:
+            prog = prog[:24] * 4              # a short loop body repeated: the same words come round again
+        regseed = rng.getrandbits(32)
+        a = Inst(cfg, prog, thumb, regseed)
+        a.create()
+        a.reset()
+        if cfg not in templates:
+            t = Inst(cfg, prog, thumb, regseed)
+            t.create()
+            templates[cfg] = t.cpu
+        pcs = set()
+        for k in range(spec['steps']):
+            pre = observe.snapshot(a.cpu)
+            if rng.random() < 0.3:
+                # same program point, other flags: re-execution of a word from a different state
+                a.cpu.registers.cpsr.value ^= rng.getrandbits(4) << 28
+                pre = observe.snapshot(a.cpu)
+            ta = a.step()
+            b = Inst(cfg, prog, thumb, regseed)
+            b.cpu = copy.deepcopy(templates[cfg])
+            observe.restore(b.cpu, pre)
+            tb = b.step()
+            res['evaluations'] += 1
+            bump('aged_steps_compared')
+            pcs.add(ta[0])
+            if ta != tb:
+                report('C20|history-dependent-step', '%s: step %d of a program (pc %#x): the instance that ran the program gives %s, a '
+                       'never-stepped instance restored to the same architectural state gives %s' % (cfg, k, pre['PC'], ta, tb),
+                       dict(kind='aged', cfg=cfg, thumb=thumb, program=prog.hex(), regseed=regseed, step=k))
+                break
+            if a.cpu.registers.bad_mode(a.cpu.registers.cpsr.m):
+                break
+        if len(pcs) >= 3:
+            res['nontrivial'].add('aged|%s|%d' % (cfg, len(pcs)))
+
+
 def first_diff(a, b):
     for i, (x, y) in enumerate(zip(a, b)):
         if x != y:
@@ -308,7 +359,9 @@ def run_shard(spec):
     from vf import scen, machine, observe, trace_decode     # noqa: F401
     import armulator.armv6.opcodes.decoders.arm_instruction_set    # noqa: F401
     word_pool(spec['seed'])
-    if spec['kind'] == 'replay':
+    if spec['kind'] == 'aged':
+        aged_steps(spec, res, bump, report, rng)
+    elif spec['kind'] == 'replay':
         for n in range(spec['n']):
             cfg = rng.choice(CFGS)
             thumb = rng.random() < 0.5
@@ -477,6 +530,8 @@ def finish(agg, tier, seed):
     for k in ('replay_runs', 'history_runs', 'isolation_runs_same_cfg', 'isolation_runs_diff_cfg', 'schedules_enumerated'):
         if c.get(k, 0) < 50:
             inc.append('too few %s (%d)' % (k, c.get(k, 0)))
+    if c.get('aged_steps_compared', 0) < 5000:
+        inc.append('too few aged-vs-fresh step comparisons (%d)' % c.get('aged_steps_compared', 0))
     return dict(inconclusive=inc, coverage=dict(
         exhaustive_subspaces=['all 70 interleavings of (create, reset, step, step) x 2 instances, per program pair'],
         explanation='schedules enumerated completely only for the 2 x 4-event shape; programs sampled'))
